@@ -9,12 +9,12 @@ from ..impl import scen
 from ..sexp import Sym
 from . import c15_canon as canon
 
-F24 = "F24-forward-refs-imports"
 
 
-def plugin_sx(c, variant):
+
+def plugin_sx(c):
     return {"S": [Sym("shorter"), "fragments"], "E": [Sym("extract"), "operations"],
-            "F": [Sym("forward"), Sym(variant)], "N": Sym("noreimports"), "I": Sym("identity")}[c]
+            "F": Sym("forward"), "N": Sym("noreimports"), "I": Sym("identity")}[c]
 
 
 def real_canonical(files):
@@ -74,9 +74,8 @@ def run(ctx, cases):
         for cfg in case.configs:
             if not case.gen[cfg].ok:
                 continue
-            for variant in (("current", "fixed") if "F" in cfg else ("fixed",)):
-                cmds.append([Sym("generate"), [plugin_sx(c, variant) for c in cfg], enc])
-                meta.append((case, cfg, variant))
+            cmds.append([Sym("generate"), [plugin_sx(c) for c in cfg], enc])
+            meta.append((case, cfg, "model"))
     results = model.batch("C15", cmds, chunk=8) if cmds else []
     verdict = {}
     for (case, cfg, variant), res in zip(meta, results):
@@ -97,7 +96,6 @@ def run(ctx, cases):
         if isinstance(mc, dict) and mc.get("operations") and v["real"].get("operations"):
             mc["operations"].pop("modules", None)
         v["variants"][variant] = None if mc == v["real"] else first_difference(mc, v["real"])
-    agree = {"current": 0, "fixed": 0, "both": 0}
     for v in verdict.values():
         case, cfg = v["case"], v["cfg"]
         run.count()
@@ -106,19 +104,9 @@ def run(ctx, cases):
             continue
         oks = [k for k, d in v["variants"].items() if d is None]
         run.dist("k1", "agree" if oks else "disagree")
-        if "F" in cfg:
-            if oks == ["current"]:
-                agree["current"] += 1
-                run.finding(F24, f"K1: the tree implements the forward-refs plugin as found (relative `typing` import, doubled dots): {cfg!r}",
-                            {"seed": case.sc.seed, "configuration": cfg})
-            elif oks == ["fixed"]:
-                agree["fixed"] += 1
-            elif oks:
-                agree["both"] += 1
         if not oks:
             run.violation(f"K1: model and generator disagree for plugins {cfg!r} (seed {case.sc.seed}): "
                           + json.dumps(v["variants"])[:900],
                           {"seed": case.sc.seed, "features": list(case.sc.features), "configuration": cfg,
                            "differences": v["variants"], "schema": case.sc.sdl, "queries": case.sc.queries,
                            "config": case.sc.config}, found_input=False)
-    run.extra["k1_forward_refs_variant"] = agree
